@@ -246,7 +246,7 @@ def draw_atoms_of(e):
 def check_rng(ck, F, pv, rule="R09.1"):
     where = "src/r1cs/prover.rs"
     I = pv.I
-    draws = [d for d in I.draw_log if d["fn"].endswith("prove_and_return_transcript")]
+    draws = [d for d in I.draw_log if getattr(d["rng"], "kind", "") != "chacha_seeded"]
     rngs = {id(d["rng"]): d["rng"] for d in draws}
     ck.require(len(rngs) == 1, rule, "single-rng", f"all prover nonces must come from one RNG value; found {[repr(r) for r in rngs.values()]}", where)
     rng = next(iter(rngs.values())) if rngs else None
@@ -280,7 +280,7 @@ def check_nonces(ck, F, pv, rule="R09.2"):
     where = "src/r1cs/prover.rs"
     nz = pv.nz
     I = pv.I
-    logged = {str(d["atom"].func) if d["atom"].is_Function else str(d["atom"]): d for d in I.draw_log if d["fn"].endswith("prove_and_return_transcript")}
+    logged = {str(d["atom"].func) if d["atom"].is_Function else str(d["atom"]): d for d in I.draw_log if getattr(d["rng"], "kind", "") != "chacha_seeded"}
     scal = {}
     for key in ("rho_A_I1", "rho_A_O1", "rho_S1", "rho_A_I2", "rho_A_O2", "rho_S2"):
         scal[key] = nz.get(key)
